@@ -299,6 +299,33 @@ pub fn run(ctx: &Ctx) -> Outcome {
         rep.count("backend_single_blocks", (c1[0] - c0[0]) + (c1[3] - c0[3]));
         rep.finish()
     });
+    // (2d) one HUGE call (past 512 KiB / 1 MiB thresholds of "bulk" paths): a megabyte and three blocks in every call kind,
+    // compared with the reference computed in one pass (output and final state); one 16-byte configuration (thorough: two)
+    let huge_cfgs: Vec<&Cfg> = cfgs.iter().filter(|c| c.is_toy() && ((c.bs == 16 && c.par == 3) || (tier == Tier::Thorough && c.bs == 64))).cloned().collect();
+    let huge_units: Vec<(&Cfg, &'static str, Dir)> = units.iter().filter(|(c, _, _)| huge_cfgs.iter().any(|h| h.name == c.name)).cloned().collect();
+    let rhuge = par_map(&huge_units, |(cfg, fam, dir)| {
+        let mut rep = Report::new(format!("{}/{}-{}/huge", cfg.name, fam, dir.s()));
+        let bs = cfg.bs;
+        let key = &keys(seed, cfg.key_len)[0];
+        let iv = pattern(seed, 0x1717, if *fam == "ige" { 2 * bs } else { bs });
+        for fe in block_frontends(cfg, fam, *dir) {
+            let g = fe.gran;
+            let n = (1usize << 20) / bs.max(g) * (bs.max(g) / g) + 3 * (bs / g).max(1);
+            let data = pattern(seed, 0xC07E, n * g);
+            let pre = dirty(n * g);
+            let (want, want_state) = family_ref(cfg, fam, *dir, key, &iv, &data);
+            for &k in &fe.kinds {
+                rep.case(|| {
+                    let pieces = [p(n * g, k)];
+                    let got = (fe.run)(key, &iv, &data, &pieces, &pre)?;
+                    ensure!(got.out == want, format!("output/{}", fe.name), "{} one call of {} bytes ({}): output differs from the reference (first diff at byte {:?})", fe.ty, n * g, k.s(), first_diff(&got.out, &want));
+                    ensure!(got.state == want_state, format!("chaining_state/{}", fe.name), "{} one call of {} bytes ({}): final chaining state {:?} want {:?}", fe.ty, n * g, k.s(), got.state.as_ref().map(|s| short(s)), want_state.as_ref().map(|s| short(s)));
+                    Ok(())
+                });
+            }
+        }
+        rep.finish()
+    });
     // (1d) closure scripts: every sequence of <= 3 (thorough: 4 for narrow backends) backend calls -- a full parallel group, a
     // single block, a tail of one or two blocks, each through the InOut or the in-place backend method -- made by a
     // caller-supplied closure inside ONE *_with_backend / process_with_backend session, followed by an ordinary single-block
@@ -450,6 +477,7 @@ pub fn run(ctx: &Ctx) -> Outcome {
     });
     let mut o = merge(reports);
     extend(&mut o, merge(r1d));
+    extend(&mut o, merge(rhuge));
     extend(&mut o, merge(r4));
     o.rule = "per block-oriented entry point (cbc, pcbc, ige, cfb, cfb8 as 1-byte blocks, ofb as encryptor/decryptor/core, the six CTR cores and the BelT core through apply_keystream_blocks and write_keystream_blocks): (1) stateless: ALL compositions of n blocks into calls x {in place, b2b} per piece, one-block pieces through the single-block entry points; (2) deviation-bounded: every set of <= k split points on a 4*PAR+3 block input, in place and b2b; (3) merged BFS over call sizes {1,2,PAR-1,PAR,PAR+1,2PAR,2PAR+1,3PAR+1} x kind with the singleton-canonical-state-per-offset invariant (key = blocks consumed, exported state, output of a two-block probe); (4) identical inputs under every parallel width of the same block size, including the CTS one-shots. Oracle: bytes and chaining state after every call equal the reference (= the one-block-at-a-time run)".into();
     o.configs = cfgs.iter().map(|c| c.name.clone()).collect();
